@@ -21,7 +21,8 @@ class InitError(Exception):
     pass
 
 
-EXCS = {'ValueError': ValueError, 'KeyError': KeyError, 'CustomError': CustomError, 'CustomError2': CustomError2, 'ZeroDivisionError': ZeroDivisionError}
+# TimeoutError: a type the server itself raises (and catches) for its own deadline; a worker's own TimeoutError is still the worker's failure
+EXCS = {'ValueError': ValueError, 'KeyError': KeyError, 'CustomError': CustomError, 'CustomError2': CustomError2, 'ZeroDivisionError': ZeroDivisionError, 'TimeoutError': TimeoutError}
 EXC_NAMES = list(EXCS)
 
 
